@@ -83,27 +83,32 @@ Proof.
   cbn [m_dev m_source m_root m_mp]. now rewrite H1, H3, H4, H5.
 Qed.
 
-(* GetMountSources recognises the source exactly when the kernel identity shows it *)
+(* what findLayerstate accepts as the configured thing on an import mountpoint: the source is
+   among GetMountSources and, for other than bind imports, the file-system type is the
+   configured one -- exactly when the kernel identity shows it *)
+Definition model_right (tab : list kline) (k : kline) (em : emount) : bool :=
+  source_is_expected (devs_of tab []) (mount_of_k k) (em_source em)
+  && (is_bind_type (em_fstype em) || beq (k_fstype k) (em_fstype em)).
 Definition src_agree_one (tab : list kline) (em : emount) : bool :=
   match top_at tab (em_target em) with
-  | Some k => Bool.eqb (source_is_expected (devs_of tab []) (mount_of_k k) (em_source em))
-                       (shows_source tab k (em_source em) (em_fstype em))
+  | Some k => Bool.eqb (model_right tab k em) (shows_source tab k (em_source em) (em_fstype em))
   | None => true
   end.
 (* inAnyLayerDirectory (64 path.Dir steps in the model) is the prefix test *)
 Definition dir_test_one (c : cfgT) (em : emount) : bool :=
   Bool.eqb (in_any_layer_dir 64 (c_layers c) (em_source em)) (at_or_under (c_layers c) (em_source em)).
-(* no foreign mount on a mountpoint whose host source directory is missing *)
-Definition no_foreign_one (c : cfgT) (f : fsT) (tab : list kline) (em : emount) : bool :=
+(* no mount that the kernel table shows to be the configured source on a mountpoint whose host
+   source directory is (now) missing: layercake calls any mount there incorrect *)
+Definition no_shown_one (c : cfgT) (f : fsT) (tab : list kline) (em : emount) : bool :=
   negb (exists_ f (em_target em)
         && (is_abs (em_source em) && negb (exists_ f (em_source em))
             && negb (at_or_under (c_layers c) (em_source em)))
         && match top_at tab (em_target em) with
-           | Some k => negb (shows_source tab k (em_source em) (em_fstype em))
+           | Some k => shows_source tab k (em_source em) (em_fstype em)
            | None => false end).
 
 Definition import_ok (c : cfgT) (f : fsT) (tab : list kline) (em : emount) : bool :=
-  src_agree_one tab em && dir_test_one c em && no_foreign_one c f tab em.
+  src_agree_one tab em && dir_test_one c em && no_shown_one c f tab em.
 
 (* the three relative directory settings do not end in a slash *)
 Definition no_trailing_slash (d : bytes) : bool :=
@@ -203,10 +208,13 @@ Lemma x_wrong_top x0 : src_agree_one tab (em_of_x x0) = true ->
   | Some k => negb (shows_source tab k (x_source x0) (x_fstype x0))
   | None => false end.
 Proof.
-  unfold src_agree_one, x_wrong. cbn [em_of_x em_target em_source em_fstype].
+  unfold src_agree_one, model_right, x_wrong, x_is_bind. cbn [em_of_x em_target em_source em_fstype].
   pose proof (get_mount_top tab ms (x_mount x0) Hms) as G.
   destruct (top_at tab (x_mount x0)) as [k|], (get_mount ms (x_mount x0)) as [mnt|]; try contradiction; [|reflexivity].
-  intros H. apply eqb_prop in H. now rewrite (source_is_expected_mrel _ k mnt _ G), H.
+  intros H. apply eqb_prop in H. rewrite <- H. rewrite (source_is_expected_mrel _ k mnt _ G).
+  pose proof G as (_ & G2 & _). rewrite G2. unfold is_bind_type.
+  destruct (source_is_expected _ _ _), (beq (x_fstype x0) (bs "bind") || beq (x_fstype x0) (bs "rbind")),
+           (beq (k_fstype k) (x_fstype x0)); reflexivity.
 Qed.
 
 (* the part of findLayerstate after the overlay test, against the documented continuation *)
@@ -241,21 +249,22 @@ Proof.
                                         && negb (at_or_under (c_layers c) (x_source a)))) xs).
   { apply existsb_ext_in. intros x0 Hx0. specialize (Hok x0 Hx0). unfold import_ok in Hok.
     rewrite !andb_true_iff in Hok. destruct Hok as [[_ Hd] _]. unfold dir_test_one in Hd.
-    apply eqb_prop in Hd. cbn [em_of_x em_source] in Hd. unfold x_miss. now rewrite Hd. }
-  assert (Ewrong : existsb (fun x0 => negb (x_miss c f x0) && x_wrong ms (devs_of tab []) x0) xs =
+    apply eqb_prop in Hd. cbn [em_of_x em_source] in Hd. unfold x_miss, src_missing. now rewrite Hd. }
+  assert (Ewrong : existsb (x_bad c f ms (devs_of tab [])) xs =
                    existsb (fun a => exists_ f (x_mount a) &&
                                      match top_at tab (x_mount a) with
                                      | Some k => negb (shows_source tab k (x_source a) (x_fstype a))
                                      | None => false end) xs).
   { apply existsb_ext_in. intros x0 Hx0. specialize (Hok x0 Hx0). unfold import_ok in Hok.
     rewrite !andb_true_iff in Hok. destruct Hok as [[Hs Hd] Hf].
-    rewrite (x_wrong_top x0 Hs). unfold dir_test_one in Hd. apply eqb_prop in Hd.
-    unfold no_foreign_one in Hf. cbn [em_of_x em_source em_target em_fstype] in Hd, Hf.
-    unfold x_miss. rewrite Hd.
+    unfold x_bad. rewrite (x_wrong_top x0 Hs), x_mounted_top. unfold mounted_at.
+    unfold dir_test_one in Hd. apply eqb_prop in Hd.
+    unfold no_shown_one in Hf. cbn [em_of_x em_source em_target em_fstype] in Hd, Hf.
+    unfold src_missing. rewrite Hd.
     destruct (exists_ f (x_mount x0)); cbn [negb orb andb] in *; [|reflexivity].
     destruct (is_abs (x_source x0) && negb (exists_ f (x_source x0))
               && negb (at_or_under (c_layers c) (x_source x0))); cbn [negb andb] in *; [|reflexivity].
-    apply negb_true_iff in Hf. now rewrite Hf. }
+    apply negb_true_iff in Hf. destruct (top_at tab (x_mount x0)); [now rewrite Hf|reflexivity]. }
   rewrite Emiss, Ewrong.
   set (wrong := existsb (fun a => exists_ f (x_mount a) && _) xs).
   set (miss_i := existsb (fun a => negb (exists_ f (x_mount a)) || _) xs).
@@ -309,11 +318,11 @@ Lemma probed_state_doc c f tab um ld ms n x l ps :
   forallb (import_ok c f tab) (imports_of c (chain c f n) x) = true ->
   lsim x l -> l_overlain l = overlain_by_mount c tab x ->
   (l_base x <> [] -> parent_rel ld (l_base x) ps) ->
-  (l_state x =? st_error) = false ->
+  l_state l = l_state x -> (l_state x =? st_error) = false ->
   l_state (probed c f um ld l) = C08.doc_state_one c f tab um (read_layer_files c f) (chain c f n) ps x.
 Proof.
-  intros Hci Hdirs Hmap Hprobe Hms Hx Hn Himp Hl Hov Hps Hne.
-  rewrite doc_state_one_eq, Hne. unfold probed.
+  intros Hci Hdirs Hmap Hprobe Hms Hx Hn Himp Hl Hov Hps Hls Hne.
+  rewrite doc_state_one_eq, Hne. unfold probed. rewrite Hls, Hne.
   rewrite <- (lsim_build c x l Hl), <- (lsim_work c x l Hl), <- (lsim_upper c x l Hl).
   pose proof Hl as (Hname & Hbase & _). rewrite <- Hbase, <- Hname.
   set (l1 := set_kmounts (classify_users c l (users_of um (l_name x))) _).
